@@ -128,6 +128,13 @@ FEATURES += [
     ("feat-trigraph", [], """out str[24] s = "??)a??!b??'"; out str[24] t; hook h;
 parser { "a"; s = "x??(??=??/??<??>??-"; h(); "b"; t = "%d\\n??/"; s = "?" ; h(); "c"; t = "a??b"; }"""),
 ]
+# a break / finish / overflowing append two and three action-only `if` levels deep (skip labels and redirects of nested conditionals)
+FEATURES += [
+    ("feat-deep-break", [], """out int{unsigned, size 1} n = 0; out int{unsigned, size 1} m = 0; hook h;
+parser { loop outer { loop { /[ab]/; n = [n + 1]; if n > 1 { if $last == 'b' { if m == 0 { break; } else { break outer; } } else { m = 1; } } h(); } "c"; n = 0; } "z"; h(); }"""),
+    ("feat-deep-finish-append", [], """out int{unsigned, size 1} n = 0; out str[3] s; finishcode F; hook h;
+parser { loop { try { /[abc]/; n = [n + 1]; if n > 1 { if $last == 'b' { if s.len == 2 { finish F; } else { s += [66]; } } elif $last == 'c' { if n > 2 { s += [67]; } } } h(); } catch (outofspace) { h(); delete s; "!"; } } }"""),
+]
 # programs the compiler must reject in code generation (used by the checks that look at emitted text only)
 CODEGEN_REJECTED = [
     # an action-only conditional among the start actions that mentions $last: there is no byte yet
